@@ -270,3 +270,11 @@ var newStrTable = map[string]internalPanic{
 // tableSetCallers: functions other than (*Runtime).SetTable allowed to call
 // (*Table).Set, with the reason.
 var tableSetCallers = map[string]string{}
+
+// threadStatusWriters: which functions own each Thread.status transition
+// (status constants by value: ThreadOK=0, ThreadSuspended=1, ThreadDead=2).
+var threadStatusWriters = map[string]map[string]bool{
+	"status=0": {"(*runtime.Thread).Resume": true, "(*runtime.Thread).Close": true, "runtime.New": true, "runtime.NewThread": true}, // running: resumed, resumed-to-close, the main thread
+	"status=1": {"(*runtime.Thread).Yield": true, "runtime.NewThread": true},                                                    // suspended: yielded, or freshly created
+	"status=3": {"(*runtime.Thread).end": true},                                                                                // dead: only when its goroutine ends
+}
